@@ -89,6 +89,11 @@ class Enc:
             return z3.If(self.C(S, rhs[1]), self.R(S, var, rhs[2]), self.R(S, var, rhs[3]))
         if t == "bool":
             return self.C(S, rhs[1])
+        if t == "count":  # number of true conditions
+            acc = z3.BitVecVal(0, so)
+            for c in rhs[1]:
+                acc = acc + z3.If(self.C(S, c), z3.BitVecVal(1, so), z3.BitVecVal(0, so))
+            return acc
         raise ValueError(rhs)
 
     # ---- transition -------------------------------------------------------------------------------------------
@@ -240,6 +245,8 @@ class Enc:
             return self._r(S, var, rhs[2]) if self._c(S, rhs[1]) else self._r(S, var, rhs[3])
         if t == "bool":
             return self._c(S, rhs[1])
+        if t == "count":
+            return sum(1 for c in rhs[1] if self._c(S, c)) % (1 << so)
         raise ValueError(rhs)
 
     def witness(self, vals):
